@@ -1,10 +1,219 @@
-import Dashu.Props.C10
+import Dashu.Proofs.Float.Sqrt
+import Dashu.Proofs.Float.AddSplit
 /-
-  C03 — placeholder while the correspondence is brought up (replaced by the property theorems).
+  C03 — Float arithmetic honours the documented rounding contract of its mode.
+
+  `Contract B m p x r flag` (`Model/Float/Spec.lean`) over `Rat`: `flag = Exact ⇔ r = x`; otherwise
+  `|r − x| < 1 ulp` (`≤ ½ ulp` for HalfEven / HalfAway) where the ulp is that of `x` at `p` digits
+  (any `B^e` with `B^(e+p-1) ≤ |x|`); the side condition of the directed modes; `AddOne ⇒ r > x`,
+  `SubOne ⇒ r < x`.  Every theorem quantifies over all bases `B ≥ 2`, all precisions `p ≥ 1`, all six
+  modes and all operands; `c` is the coarse `f32` test of `round_fract` (any sound oracle), `dub` the
+  `digits_ub` estimate.
+
+  The model mirrors /repo including the `fix:` commits 92fc29e (sqrt scaling / Exact flag),
+  0d97e26 (far-apart addition stand-in), d197d6e (`sub` from zero) found by this property's check.
+  `Context::mul/sqr/cubic` still pre-shrink operands longer than 2p / 3p digits (recorded finding,
+  outside "operands that fit p"): `fixed = false` is the code as it is, `fixed = true` without the
+  pre-shrink.
+
+  What is proved (all without bound on operand size, exponent gap, base, precision):
+  * `repr_round` (C10); `mul` / `*` / `sqr` / `cubic` for operands of at most 2p (3p) digits — in
+    particular all operands that fit `p` — and, without the pre-shrink, for all operands;
+  * `add` / `sub` for ALL operands that fit `p` (`add_sub_contract`): zero operands, equal exponents,
+    and the four alignment branches of `repr_add_large_small` / `repr_add_small_large` (far-apart with
+    the sticky stand-in, the two splitting branches, full alignment) composed with the three
+    re-alignment branches of `repr_round_sum`; for every sound `digits_ub` estimator;
+  * `repr_div` / `/` / `inv` for every dividend and non-zero divisor, `Context::div` for dividends of at
+    most `rhs.digits + p` digits; `sqrt` for every non-negative operand (`ContractSqrt`);
+  * the documented panics of `div` and `sqrt`.
+  Not covered by theorems (recorded findings, outside "operands that fit p"): `Context::add/sub/mul/
+  sqr/cubic/div` on Reprs LONGER than the working length — there the contract is false for the code
+  as it is (`mul_preshrink_counterexample`; `repr_round_sum`'s single guard digit is the hypothesis
+  `hguard` of `round_sum_contract`).
 -/
 namespace Dashu.Props.C03
-open Dashu.Model.Float
+open Dashu Dashu.Model.Float
 
-theorem placeholder : andThenFlag none none = none := rfl
+/-- `FBig * FBig` (all operator forms): one rounding of the exact product -/
+theorem mul_operator_contract (B : Nat) (hB : 2 ≤ B) (m : Mode) (c : Coarse) (hc : CoarseSound c)
+    (p : Nat) (hp : 1 ≤ p) (a b : FRepr) :
+    Contract B m p (a.toRat B * b.toRat B) ((opMul B m c p a b).1.toRat B) (opMul B m c p a b).2 :=
+  opMul_contract B hB m c hc p hp a b
+
+/-- `Context::mul` as it is, for operands of at most `2p` digits (every operand that fits `p`): equal to
+    the operator form, hence the contract.  (`…_partial`: the hypothesis excludes the pre-shrink.) -/
+theorem mul_contract_partial (B : Nat) (hB : 2 ≤ B) (m : Mode) (c : Coarse) (hc : CoarseSound c)
+    (p : Nat) (hp : 1 ≤ p) (a b : FRepr) (ha : a.digits B ≤ 2 * p) (hb : b.digits B ≤ 2 * p) :
+    Contract B m p (a.toRat B * b.toRat B) ((ctxMul false B m c p a b).1.toRat B) (ctxMul false B m c p a b).2 := by
+  rw [ctxMul_asis B m c p a b ha hb, ctxMul_fixed_eq_op]
+  exact opMul_contract B hB m c hc p hp a b
+
+/-- without the pre-shrink `Context::mul` honours the contract for all operands -/
+theorem mul_contract_fixed (B : Nat) (hB : 2 ≤ B) (m : Mode) (c : Coarse) (hc : CoarseSound c)
+    (p : Nat) (hp : 1 ≤ p) (a b : FRepr) :
+    Contract B m p (a.toRat B * b.toRat B) ((ctxMul true B m c p a b).1.toRat B) (ctxMul true B m c p a b).2 :=
+  opMul_contract B hB m c hc p hp a b
+
+/-- the hypothesis of `mul_contract_partial` is needed: HalfEven, p = 1, base 10: `1.01 × 2.5 = 2.525`.
+    The code as it is pre-rounds `1.01` (3 digits > 2p) to `1.0` and returns `2` (`NoOp`): error `0.525 > ½ ulp`;
+    without the pre-shrink the result is `3` (`AddOne`). -/
+theorem mul_preshrink_counterexample :
+    ctxMul false 10 .halfEven coarseNone 1 ⟨101, -2⟩ ⟨25, -1⟩ = (⟨2, 0⟩, some .NoOp) ∧
+    ctxMul true 10 .halfEven coarseNone 1 ⟨101, -2⟩ ⟨25, -1⟩ = (⟨3, 0⟩, some .AddOne) ∧
+    ¬ (2 * |(2000 : Int) - 2525| ≤ 1000) := by
+  refine ⟨by decide +kernel, by decide +kernel, by norm_num⟩
+
+theorem sqr_contract_partial (B : Nat) (hB : 2 ≤ B) (m : Mode) (c : Coarse) (hc : CoarseSound c)
+    (p : Nat) (hp : 1 ≤ p) (a : FRepr) (ha : a.digits B ≤ 2 * p) :
+    Contract B m p (a.toRat B * a.toRat B) ((ctxSqr false B m c p a).1.toRat B) (ctxSqr false B m c p a).2 := by
+  rw [ctxSqr_asis B m c p a ha]
+  exact ctxSqr_contract B hB m c hc p hp a
+
+theorem sqr_contract_fixed (B : Nat) (hB : 2 ≤ B) (m : Mode) (c : Coarse) (hc : CoarseSound c)
+    (p : Nat) (hp : 1 ≤ p) (a : FRepr) :
+    Contract B m p (a.toRat B * a.toRat B) ((ctxSqr true B m c p a).1.toRat B) (ctxSqr true B m c p a).2 :=
+  ctxSqr_contract B hB m c hc p hp a
+
+theorem cubic_contract_partial (B : Nat) (hB : 2 ≤ B) (m : Mode) (c : Coarse) (hc : CoarseSound c)
+    (p : Nat) (hp : 1 ≤ p) (a : FRepr) (ha : a.digits B ≤ 3 * p) :
+    Contract B m p (a.toRat B * a.toRat B * a.toRat B) ((ctxCubic false B m c p a).1.toRat B)
+      (ctxCubic false B m c p a).2 := by
+  rw [ctxCubic_asis B m c p a ha]
+  exact ctxCubic_contract B hB m c hc p hp a
+
+theorem cubic_contract_fixed (B : Nat) (hB : 2 ≤ B) (m : Mode) (c : Coarse) (hc : CoarseSound c)
+    (p : Nat) (hp : 1 ≤ p) (a : FRepr) :
+    Contract B m p (a.toRat B * a.toRat B * a.toRat B) ((ctxCubic true B m c p a).1.toRat B)
+      (ctxCubic true B m c p a).2 :=
+  ctxCubic_contract B hB m c hc p hp a
+
+/-- `Context::add` (`rs = 1`) / `Context::sub` (`rs = -1`) whenever the alignment keeps all digits:
+    one operand zero (incl. `sub` from zero), equal exponents, or
+    `exponent gap + digits of the operand with the larger exponent ≤ p`.
+    (for operands of ANY length; the general statement for operands that fit `p` is `add_sub_contract`.) -/
+theorem add_sub_contract_partial (B : Nat) (hB : 2 ≤ B) (m : Mode) (c : Coarse) (hc : CoarseSound c)
+    (dub : Int → Nat) (p : Nat) (hp : 1 ≤ p) (lhs rhs : FRepr) (rs : Int) (hrs : rs = 1 ∨ rs = -1)
+    (hl : Normalized B lhs) (hr : Normalized B rhs)
+    (h : lhs.isZero = true ∨ rhs.isZero = true ∨ lhs.exp = rhs.exp ∨
+      (rhs.exp < lhs.exp ∧ (lhs.exp - rhs.exp).toNat + lhs.digits B ≤ p) ∨
+      (lhs.exp < rhs.exp ∧ (rhs.exp - lhs.exp).toNat + rhs.digits B ≤ p)) :
+    Contract B m p (lhs.toRat B + (rs : ℚ) * rhs.toRat B)
+      ((ctxAddSub B m c dub p lhs rhs rs).1.toRat B) (ctxAddSub B m c dub p lhs rhs rs).2 :=
+  addSub_aligned_contract B hB m c hc dub p hp lhs rhs rs hrs hl hr h
+
+/-- `Context::add` / `sub` in the far-apart branch (the sticky-bit argument): the operand with the larger
+    exponent has at most `p` digits, the other one lies more than `digits_ub + 1` digits below it and below
+    the rounding position; the result computed from the stand-in `±1` is the rounding of the exact sum.
+    Holds for every sound `digits_ub` estimator and small operands of any length. -/
+theorem add_sub_far_contract (B : Nat) (hB : 2 ≤ B) (m : Mode) (c : Coarse) (hc : CoarseSound c)
+    (dub : Int → Nat) (hdub : DubSound B dub) (p : Nat) (hp : 1 ≤ p) (lhs rhs : FRepr) (rs : Int)
+    (hrs : rs = 1 ∨ rs = -1) (hl0 : lhs.signif ≠ 0) (hr0 : rhs.signif ≠ 0)
+    (h : (rhs.exp < lhs.exp ∧ lhs.digits B ≤ p ∧
+          dub rhs.signif + 1 < (lhs.exp - rhs.exp).toNat ∧
+          dub rhs.signif + 1 + (p + if decide (sgn lhs.signif ≠ rs * sgn rhs.signif) = true then 1 else 0) <
+            lhs.digits B + (lhs.exp - rhs.exp).toNat) ∨
+         (lhs.exp < rhs.exp ∧ rhs.digits B ≤ p ∧
+          dub lhs.signif + 1 < (rhs.exp - lhs.exp).toNat ∧
+          dub lhs.signif + 1 + (p + if decide (rs * sgn rhs.signif ≠ sgn lhs.signif) = true then 1 else 0) <
+            rhs.digits B + (rhs.exp - lhs.exp).toNat)) :
+    Contract B m p (lhs.toRat B + (rs : ℚ) * rhs.toRat B)
+      ((ctxAddSub B m c dub p lhs rhs rs).1.toRat B) (ctxAddSub B m c dub p lhs rhs rs).2 :=
+  addSub_far_contract B hB m c hc dub hdub p hp lhs rhs rs hrs hl0 hr0 h
+
+/-- **`Context::add` (`rs = 1`) / `Context::sub` (`rs = -1`) honour the rounding contract for all operands
+    that fit the precision** — every sign, every exponent gap (total overlap to far beyond the precision),
+    cancellation to zero or to a single digit, carries into a new digit, operands shorter than `p`; for
+    every sound `digits_ub` estimator `dub` and every sound coarse test `c`.
+    (`hwl`/`hwr`: a zero significand comes with exponent 0, the invariant of `Repr`.) -/
+theorem add_sub_contract (B : Nat) (hB : 2 ≤ B) (m : Mode) (c : Coarse) (hc : CoarseSound c)
+    (dub : Int → Nat) (hdub : DubSound B dub) (p : Nat) (hp : 1 ≤ p) (lhs rhs : FRepr) (rs : Int)
+    (hrs : rs = 1 ∨ rs = -1) (hl : Normalized B lhs) (hr : Normalized B rhs)
+    (hwl : lhs.signif = 0 → lhs.exp = 0) (hwr : rhs.signif = 0 → rhs.exp = 0)
+    (hld : lhs.digits B ≤ p) (hrd : rhs.digits B ≤ p) :
+    Contract B m p (lhs.toRat B + (rs : ℚ) * rhs.toRat B)
+      ((ctxAddSub B m c dub p lhs rhs rs).1.toRat B) (ctxAddSub B m c dub p lhs rhs rs).2 :=
+  addSub_fits_contract B hB m c hc dub hdub p hp lhs rhs rs hrs hl hr hwl hwr hld hrd
+
+/-- `Context::repr_round_sum(signif, exp, (low, lk), is_sub)` in general: the contract for the exact value
+    `(signif·B^lk + low)·B^(exp − lk)` under the guard-digit hypothesis `hguard` — which the four
+    alignment branches establish for operands that fit `p`, and which fails for longer Reprs. -/
+theorem round_sum_contract (B : Nat) (hB : 2 ≤ B) (m : Mode) (c : Coarse) (hc : CoarseSound c)
+    (p : Nat) (hp : 1 ≤ p) (s e lv : Int) (lk : Nat) (isSub : Bool)
+    (hA : |lv| < ((B ^ lk : Nat) : Int)) (hs0 : s ≠ 0)
+    (hsign : isSub = false → (0 ≤ s → 0 ≤ lv) ∧ (s ≤ 0 → lv ≤ 0))
+    (hguard : isSub = true → digitsI B s < p + 1 → p + 1 - digitsI B s < lk →
+      ((B ^ (lk - (p + 1 - digitsI B s)) : Nat) : Int) * ((B ^ (p - 1) : Nat) : Int) ≤
+        |s * ((B ^ lk : Nat) : Int) + lv|) :
+    Contract B m p (((s * ((B ^ lk : Nat) : Int) + lv : Int) : ℚ) * bpowQ B (e - lk))
+      ((reprRoundSum B m c p s e (lv, lk) isSub).1.toRat B) (reprRoundSum B m c p s e (lv, lk) isSub).2 :=
+  reprRoundSum_contract B hB m c hc p hp s e lv lk isSub hA hs0 hsign hguard
+
+/-- `repr_round_sum` with an empty low part: the contract, at `p` or `p+1` digits -/
+theorem round_sum_nolow_contract (B : Nat) (hB : 2 ≤ B) (m : Mode) (c : Coarse) (hc : CoarseSound c)
+    (p : Nat) (hp : 1 ≤ p) (s e : Int) (isSub : Bool) :
+    Contract B m p ((s : ℚ) * bpowQ B e) ((reprRoundSum B m c p s e (0, 0) isSub).1.toRat B)
+      (reprRoundSum B m c p s e (0, 0) isSub).2 :=
+  reprRoundSum_nolow_contract B hB m c hc p hp s e isSub
+
+/-- **`Context::repr_div`** (the operator `/` at `Context::max`): for every dividend and every
+    non-zero divisor the quotient honours the contract (results may carry `p+1` digits). -/
+theorem div_contract (B : Nat) (hB : 2 ≤ B) (m : Mode) (p : Nat) (hp : 1 ≤ p) (lhs rhs : FRepr)
+    (hb : rhs.signif ≠ 0) :
+    ∃ r, reprDiv B m p lhs rhs = .ok r ∧ Contract B m p (lhs.toRat B / rhs.toRat B) (r.1.toRat B) r.2 :=
+  reprDiv_contract B hB m p hp lhs rhs hb
+
+/-- `Context::div` for dividends of at most `rhs.digits() + p` digits (all that fit `p`), any digit
+    estimators.  (`…_partial`: longer dividends are pre-shrunk — recorded finding.) -/
+theorem ctx_div_contract_partial (B : Nat) (hB : 2 ≤ B) (m : Mode) (c : Coarse) (dub dlb : Int → Nat)
+    (p : Nat) (hp : 1 ≤ p) (lhs rhs : FRepr) (hb : rhs.signif ≠ 0) (hfit : lhs.digits B ≤ rhs.digits B + p) :
+    ∃ r, ctxDiv B m c dub dlb p lhs rhs = .ok r ∧
+      Contract B m p (lhs.toRat B / rhs.toRat B) (r.1.toRat B) r.2 := by
+  rw [ctxDiv_noshrink B m c dub dlb p lhs rhs hfit]
+  exact reprDiv_contract B hB m p hp lhs rhs hb
+
+/-- `Context::inv` -/
+theorem inv_contract (B : Nat) (hB : 2 ≤ B) (m : Mode) (p : Nat) (hp : 1 ≤ p) (f : FRepr) (hf : f.signif ≠ 0) :
+    ∃ r, ctxInv B m p f = .ok r ∧ Contract B m p ((⟨1, 0⟩ : FRepr).toRat B / f.toRat B) (r.1.toRat B) r.2 :=
+  reprDiv_contract B hB m p hp ⟨1, 0⟩ f hf
+
+/-- the documented panics of division: unlimited precision, then division by zero -/
+theorem div_panics (B : Nat) (m : Mode) (p : Nat) (lhs rhs : FRepr) :
+    (p = 0 → reprDiv B m p lhs rhs = .error .unlimitedPrecision) ∧
+    (p ≠ 0 → rhs.signif = 0 → reprDiv B m p lhs rhs = .error .divideByZero) :=
+  reprDiv_panics B m p lhs rhs
+
+/-- **`Context::sqrt`** (as repaired by 92fc29e) for every non-negative operand (of any length): `r ≥ 0`,
+    `Exact ⇔ r² = x`, otherwise `√x` within one ulp (half an ulp for the nearest modes) of `r`, on the
+    side the mode prescribes; every comparison with `√x` is stated on squares (`ContractSqrt`). -/
+theorem sqrt_contract (B : Nat) (hB : 2 ≤ B) (m : Mode) (c : Coarse) (p : Nat) (hp : 1 ≤ p) (x : FRepr)
+    (hs : 0 ≤ x.signif) :
+    ∃ r, ctxSqrt B m c p x = .ok r ∧ ContractSqrt B m p (x.toRat B) (r.1.toRat B) r.2 :=
+  ctxSqrt_contract B hB m c p hp x hs
+
+/-- the documented panics of `sqrt`: unlimited precision first, then a negative operand -/
+theorem sqrt_panics (B : Nat) (m : Mode) (c : Coarse) (p : Nat) (x : FRepr) :
+    (p = 0 → ctxSqrt B m c p x = .error .unlimitedPrecision) ∧
+    (p ≠ 0 → x.signif < 0 → ctxSqrt B m c p x = .error .rootNegative) := by
+  unfold ctxSqrt
+  constructor
+  · intro h; simp [h]
+  · intro h1 h2; simp [h1, h2]
+
+/-- unlimited precision (`p = 0`): `repr_round` is the identity, flagged `Exact` -/
+theorem unlimited_exact (B : Nat) (m : Mode) (c : Coarse) (r : FRepr) : reprRound B m c 0 r = (r, none) :=
+  reprRound_unlimited B m c r
+
+/-! ### non-vacuity -/
+
+-- 9.9 × 9.9 = 98.01 at 2 digits, HalfAway: 98 (NoOp); the operands fit p
+example : opMul 10 .halfAway coarseNone 2 ⟨99, -1⟩ ⟨99, -1⟩ = (⟨98, 0⟩, some .NoOp) := by decide +kernel
+-- 2^10 + 1 at 5 bits, base 2, HalfAway (the far-apart branch, repaired stand-in): 2^10, NoOp
+example : ctxAddSub 2 .halfAway coarseNone (digitsI 2) 5 ⟨1, 10⟩ ⟨1, 0⟩ 1 = (⟨1, 10⟩, some .NoOp) := by decide +kernel
+-- aligned addition meeting the hypothesis of `add_sub_contract_partial`: 12e1 + 7 at 3 digits = 127 exactly
+example : ctxAddSub 10 .zero coarseNone (digitsI 10) 3 ⟨12, 1⟩ ⟨7, 0⟩ 1 = (⟨127, 0⟩, none) ∧
+    (((⟨12, 1⟩ : FRepr).exp - (⟨7, 0⟩ : FRepr).exp).toNat + (⟨12, 1⟩ : FRepr).digits 10 ≤ 3) := by
+  decide +kernel
+-- sqrt(2.1) at 2 digits, HalfAway: 1.4 (NoOp) — 1.5 before fix 92fc29e
+example : ctxSqrt 10 .halfAway coarseNone 2 ⟨21, -1⟩ = .ok (⟨14, -1⟩, some .NoOp) := by decide +kernel
 
 end Dashu.Props.C03
